@@ -327,6 +327,9 @@ func setAmounts(s *txgen.TxSpec, q feegen.Quote, d dest, rel int, r *common.Rand
 		if fee == 0 {
 			target = out
 		}
+	case 6:
+		// inputs - outputs at and beyond 2^63: amounts are unsigned 64-bit numbers, nothing about them is signed
+		target, name = out+fee+dust+[]uint64{1 << 63, 1<<63 + 4000000, 1<<64 - 1 - out - fee - dust - 1000000}[r.Intn(3)]+uint64(r.Intn(1000)), "ample-top-half"
 	default:
 		target, name = out+fee+dust+2+uint64(r.Intn(1000000)), "ample"
 	}
@@ -370,6 +373,9 @@ func main() {
 				base := baseTx(r, nin, nout, dataOuts)
 				for di, d := range dests(r, nout) {
 					rels := []int{0, 1, 2, 3, 4, 5}
+					if nout <= 2 && (qi+di)%4 == 0 {
+						rels = append(rels, 6) // a remainder in the upper half of the 64-bit range
+					}
 					if !thorough && nout > 2 {
 						// quick tier, large transactions: the smallest change (and for a third also the largest no-change)
 						// at the 252/253 varint boundary; away from it a rotating third of the destinations
@@ -453,6 +459,6 @@ func main() {
 	for _, j := range jobs {
 		changeCase(j.kind, j.s, j.q, j.d, j.hyp)
 	}
-	c.Stats.Rule = "grid: output counts {0,1,2,251,252,253,254} (identical P2PKH or data outputs; a mixed data/P2PKH pair for the small counts) x 9 quotes (1/20, 1/2, 1, 5, 50 sat/byte, unequal std/data) x 1..3 P2PKH inputs (some already signed) x destinations {address, P2PKH script, 1-byte, 200-byte, 252..300-byte, data script, existing index} x amount relations {insufficient, fee-1, =fee, fee+dust, fee+dust+1, ample} computed from the fee a change output would require (quick tier: at 252 and 253 outputs every quote x destination at fee+dust+1 (a 2-satoshi change output) and a third of them also at fee+dust (no change), at 251 and 254 a rotating third of the destinations; thorough: the full grid); plus bad address, index out of range / wrapping negative, nil or unsupported previous script, missing fee type, zero denominator, wrapping fee products and totals. every third case on a transaction object whose size and fee were estimated while one of its scripts had another size (in-place edit, counts unchanged). distinct = distinct (tx, quote, destination); non-trivial = at least one input"
+	c.Stats.Rule = "grid: output counts {0,1,2,251,252,253,254} (identical P2PKH or data outputs; a mixed data/P2PKH pair for the small counts) x 9 quotes (1/20, 1/2, 1, 5, 50 sat/byte, unequal std/data) x 1..3 P2PKH inputs (some already signed) x destinations {address, P2PKH script, 1-byte, 200-byte, 252..300-byte, data script, existing index} x amount relations {insufficient, fee-1, =fee, fee+dust, fee+dust+1, ample, ample with a remainder of 2^63 and more} computed from the fee a change output would require (quick tier: at 252 and 253 outputs every quote x destination at fee+dust+1 (a 2-satoshi change output) and a third of them also at fee+dust (no change), at 251 and 254 a rotating third of the destinations; thorough: the full grid); plus bad address, index out of range / wrapping negative, nil or unsupported previous script, missing fee type, zero denominator, wrapping fee products and totals. every third case on a transaction object whose size and fee were estimated while one of its scripts had another size (in-place edit, counts unchanged). distinct = distinct (tx, quote, destination); non-trivial = at least one input"
 	c.Finish()
 }
